@@ -58,6 +58,16 @@ pub fn parse_length<'a>(i: &'a [u8]) -> (r: IResult<&'a [u8], usize>)
         Len::Ok(n, l) => r matches Ok((rest, l2)) && l2 == l && rest@ == i@.subrange(n as int, i@.len() as int),
     }
 { unimplemented!() }
+// the two `take`s of nom: which one the source's identifier means is decided by the file's `use` declarations (lifter R14)
+//@path nom::bytes::streaming::take => take
+//@path nom::bytes::complete::take => take_complete
+// nom::bytes::complete::take: never asks for more input -- a short input is an ERROR, not Incomplete
+#[verifier::external_body]
+pub fn take_complete<'a>(len: usize) -> (f: impl Fn(&'a [u8]) -> IResult<&'a [u8], &'a [u8]>)
+    ensures forall|i: &'a [u8], r: IResult<&'a [u8], &'a [u8]>| #[trigger] call_ensures(f, (i,), r) ==>
+        (if i@.len() >= len { r matches Ok((rest, c)) && c@ == i@.subrange(0, len as int) && rest@ == i@.subrange(len as int, i@.len() as int) } else { r matches Err(e) && !(e is Incomplete) }),
+        forall|i: &'a [u8]| call_requires(f, (i,)),
+{ move |i: &'a [u8]| unimplemented!() }
 // nom::bytes::streaming::take
 #[verifier::external_body]
 pub fn take<'a>(len: usize) -> (f: impl Fn(&'a [u8]) -> IResult<&'a [u8], &'a [u8]>)
